@@ -9,7 +9,7 @@
 From Coq Require Import List NArith ZArith String.
 Import ListNotations.
 From PP Require Import Base Syntax Spec SpecSyn SpecMono SpecNoErr SpecWf SpecTerm SpecCert Grammars.
-From PP Require Front FrontProof.
+From PP Require Front FrontProof InfixOldDef InfixEquiv.
 
 Theorem C10_meta_refs_defined : all_grammar (ref_defined meta_grammar) meta_grammar = true.
 Proof. vm_compute. reflexivity. Qed.
@@ -62,6 +62,12 @@ Proof. exact FrontProof.front_total. Qed.
 Theorem C10_front_end_error_position : forall t p, Front.front t = Front.FSyntax p -> (p <= List.length t)%nat.
 Proof. exact FrontProof.front_error_position. Qed.
 
+(* the repair 6964c88 replaced the right-recursive infix parser of grammar/parser.py by a loop; both versions are
+   transcribed (InfixOldDef.v: before; Front.v: after) and proved to build the same rule table or report the same
+   error position on EVERY text (InfixEquiv.v): the refactoring preserved meaning *)
+Theorem C10_infix_refactoring_preserved_front_end : forall t, InfixEquiv.front_old t = Front.front t.
+Proof. exact InfixEquiv.front_old_equiv. Qed.
+
 Print Assumptions C10_meta_refs_defined.
 Print Assumptions C10_reader_never_stuck.
 Print Assumptions C10_reader_verdict_stable.
@@ -69,3 +75,4 @@ Print Assumptions C10_reader_tree_wellformed.
 Print Assumptions C10_reader_terminates.
 Print Assumptions C10_front_end_total.
 Print Assumptions C10_front_end_error_position.
+Print Assumptions C10_infix_refactoring_preserved_front_end.
